@@ -331,8 +331,16 @@ EngClip(par, res) ==
           ELSE [ttl |-> par.min + k - 1, addr |-> "", dest |-> FALSE, rtt_us |-> 0]]
 HopProj(hops) == [k \in DOMAIN hops |-> [ttl |-> hops[k].ttl, addr |-> hops[k].addr, dest |-> hops[k].dest, rtt_us |-> hops[k].rtt_us]]
 
-\* C07 (parallel): the output is Clip(Fold(accepted)) - first wins, destination overrides - whatever the schedule was
-C07_eng(H) == H.out.ok => HopProj(H.out.hops) = EngClip(H.par, EngFold(EngAccepted(H), [t \in H.par.min..H.par.max |-> NullHop]))
+\* C07 (parallel): the output is Clip(Fold(accepted)) - first wins, destination overrides - whatever the schedule was;
+\* and the receiver keeps reading until the deadline (also after the destination answered): every reply that became
+\* readable at least one poll interval before the deadline was read
+AllDueRead(H) ==
+    LET t0 == IF Len(H.sent) > 0 THEN H.sent[1].t ELSE 0
+        dl == t0 + H.par.timeout_us + H.par.delay_us * ProbeCount(H) - H.par.poll_us
+        need == Cardinality({i \in DOMAIN H.due : H.due[i].t <= dl})
+    IN (H.out.ok /\ H.cancel < 0) => Len(H.got) >= need
+C07_eng(H) == /\ H.out.ok => HopProj(H.out.hops) = EngClip(H.par, EngFold(EngAccepted(H), [t \in H.par.min..H.par.max |-> NullHop]))
+              /\ AllDueRead(H)
 \* C03: shape, and the list ends at the lowest TTL for which a destination reply was accepted
 C03_eng(H) ==
     H.out.ok =>
